@@ -268,30 +268,34 @@ structure Cur where
   currentMax : Nat
   out : List Nat
 
-/-- one iteration of the `while (true)` loop of `applyFilters` (≥ 2 filters); `none` = `break` -/
+/-- first half of an iteration of the `while (true)` loop of `applyFilters`:
+    `if (counter == filters.size()) { push currentMax; filters[0].stepAdvance(); if (!valid) break; currentMax = …; counter = 1; lastMaxFound = 0; }`
+    (second component `false` = `break`) -/
+def Cur.matchPart (c : Cur) : Cur × Bool :=
+  if c.counter = c.fs.length then
+    let f0 := (c.fs.getD 0 ⟨[], []⟩).step
+    let c1 : Cur := { c with fs := c.fs.set 0 f0, out := c.out ++ [c.currentMax] }
+    if !f0.isValid then (c1, false)
+    else ({ c1 with lastMaxFound := 0, counter := 1, currentMax := f0.getMin }, true)
+  else (c, true)
+
+/-- second half: `filters[counter].advance(currentMax); if (!valid) break; currentId = getMin;
+    if (currentId > currentMax) {currentMax = currentId; lastMaxFound = counter; counter = 0;} else if (++counter == lastMaxFound) ++counter;` -/
+def Cur.advPart (c : Cur) : Cur × Bool :=
+  let fc := (c.fs.getD c.counter ⟨[], []⟩).advance c.currentMax
+  let c1 : Cur := { c with fs := c.fs.set c.counter fc }
+  if !fc.isValid then (c1, false) else
+  let cid := fc.getMin
+  if cid > c.currentMax then
+    ({ c1 with currentMax := cid, lastMaxFound := c.counter, counter := 0 }, true)
+  else
+    let k := c.counter + 1
+    ({ c1 with counter := if k = c.lastMaxFound then k + 1 else k }, true)
+
+/-- one iteration of the loop (≥ 2 filters) -/
 def Cur.iter (c : Cur) : Cur × Bool :=
-  let n := c.fs.length
-  -- "if we have matched through all filters"
-  let r : Option Cur :=
-    if c.counter = n then
-      let f0 := (c.fs.getD 0 ⟨[], []⟩).step
-      let fs := c.fs.set 0 f0
-      let out := c.out ++ [c.currentMax]
-      if !f0.isValid then none
-      else some { fs := fs, lastMaxFound := 0, counter := 1, currentMax := f0.getMin, out := out }
-    else some c
-  match r with
-  | none => ({ c with out := c.out ++ [c.currentMax] }, false)
-  | some c =>
-    let fc := (c.fs.getD c.counter ⟨[], []⟩).advance c.currentMax
-    let fs := c.fs.set c.counter fc
-    if !fc.isValid then ({ c with fs := fs }, false) else
-    let cid := fc.getMin
-    if cid > c.currentMax then
-      ({ c with fs := fs, currentMax := cid, lastMaxFound := c.counter, counter := 0 }, true)
-    else
-      let k := c.counter + 1
-      ({ c with fs := fs, counter := if k = c.lastMaxFound then k + 1 else k }, true)
+  let r := c.matchPart
+  if r.2 then r.1.advPart else r
 
 def Cur.run : Nat → Cur → List Nat
   | 0, c => c.out
@@ -304,7 +308,7 @@ def applyCursor (fs : List Filt) : List Nat :=
   | [] => []
   | [f] => f.merged
   | f0 :: _ =>
-    let total := (fs.map Filt.size).foldl (· + ·) 0
+    let total := (fs.map Filt.size).sum
     Cur.run ((total + 1) * (fs.length + 2) + 2)
       { fs := fs, lastMaxFound := 0, counter := 1, currentMax := f0.getMin, out := [] }
 
